@@ -2,6 +2,7 @@
 import sys
 
 from sa import report, rules_opts as RO, rules_emit as RE
+from sa import rules_extra as RX
 
 
 def run(ctx, repo):
@@ -25,7 +26,8 @@ def run(ctx, repo):
     RE.r_directive_after_open_ended(ctx, repo)
     RO.r_ascii_unless_unicode(ctx, repo)
     RE.r_tagchar_inclusion(ctx, repo)
-
+    RX.r_analyze_special(ctx, repo)
+    RX.r_emitter_doc_reset(ctx, repo)
 
 if __name__ == '__main__':
     sys.exit(report.main('C15', 'other', run))
